@@ -545,27 +545,18 @@ def run(ctx):
         rf = prog.func("GCMAlgorithmFactory.resolve_algorithm")
         tparam, pparam = rf.params[0], rf.params[1]
         members = [m for m in prog.cls("GCMAlgorithmTypes").class_attrs]
-        arms = {}
-        node = rf.body[0] if rf.body else None
-        ok_shape = True
-        while isinstance(node, ast.If):
-            r = rules.compare_with_pivot(node.test, lambda x: txt(x) == tparam)
-            mem = rules.enum_member(r[1], "GCMAlgorithmTypes") if r and r[0] == "==" else None
-            if mem is None or len(node.body) != 1 or not isinstance(node.body[0], ast.Return):
-                ok_shape = False
-                break
-            arms[mem] = node.body[0]
-            node = node.orelse[0] if len(node.orelse) == 1 else None if not node.orelse else node.orelse
-            if isinstance(node, list):
-                break
-        if not ok_shape or not arms:
-            o.undecided("resolve_algorithm is not an if/elif chain on the type (a different correct dispatch is not recognised)", rf)
+        arms, complete = rules.dispatch_arms(prog, rf, tparam, "GCMAlgorithmTypes")
+        if not arms or not any(m in arms for m in DISPATCH_SPEC):
+            o.undecided("resolve_algorithm is not a recognised dispatch on the type (if/elif chain, early returns, match, or table lookup)", rf)
         else:
             for mem in members:
                 if mem not in DISPATCH_SPEC:
                     continue
                 if mem not in arms:
-                    o.violated(rf, rf.node, f"no arm for GCMAlgorithmTypes.{mem}: the factory cannot build that generator")
+                    if complete:
+                        o.violated(rf, rf.node, f"no arm for GCMAlgorithmTypes.{mem}: the factory cannot build that generator")
+                    else:
+                        o.undecided(f"no arm found for GCMAlgorithmTypes.{mem}, but the dispatch is only partly understood", rf)
                     continue
                 rv = arms[mem].value
                 b = match(pat("$cls($p)"), rv)
